@@ -177,8 +177,10 @@ func (b *circuitBreakerBase) resetCurProbeNum() {
 // fromClosedToOpen updates circuit breaker state machine from closed to open.
 // Return true only if current goroutine successfully accomplished the transformation.
 func (b *circuitBreakerBase) fromClosedToOpen(snapshot interface{}) bool {
+	// Publish the retry deadline before the state becomes Open, so that a concurrent
+	// TryPass never observes Open together with a stale (already elapsed) deadline.
+	b.updateNextRetryTimestamp()
 	if b.state.cas(Closed, Open) {
-		b.updateNextRetryTimestamp()
 		vhook.Yield("cb.notify")
 		for _, listener := range stateChangeListeners {
 			listener.OnTransformToOpen(Closed, *b.rule, snapshot)
@@ -226,9 +228,10 @@ func (b *circuitBreakerBase) fromOpenToHalfOpen(ctx *base.EntryContext) bool {
 // fromHalfOpenToOpen updates circuit breaker state machine from half-open to open.
 // Return true only if current goroutine successfully accomplished the transformation.
 func (b *circuitBreakerBase) fromHalfOpenToOpen(snapshot interface{}) bool {
+	// See fromClosedToOpen: the retry deadline must be in place before the state becomes Open.
+	b.updateNextRetryTimestamp()
 	if b.state.cas(HalfOpen, Open) {
 		b.resetCurProbeNum()
-		b.updateNextRetryTimestamp()
 		vhook.Yield("cb.notify")
 		for _, listener := range stateChangeListeners {
 			listener.OnTransformToOpen(HalfOpen, *b.rule, snapshot)
